@@ -80,6 +80,14 @@ OutKN == C("outkn", <<Two(R("r1", SC, 0, "a", "outkn", FALSE, <<>>), 1),
 OutKNSing == C("outknsing", <<Two(R("r1", SG, 0, "a", "outkn", FALSE, <<>>), 1),
                               R("r2", TR, 2, "a", "ctorerr", TRUE, <<P("S0"), PK("S1")>>)>>)
 
+\* parameter objects taken BY POINTER (func(in *Params) ...) and result objects returned BY POINTER: the meaning is
+\* that of the by-value forms
+PtrOf(c, cid, ids) == [c EXCEPT !.cid = cid, !.regs = [i \in DOMAIN @ |-> IF @[i].id \in ids THEN Kinded(@[i], "ptr") ELSE @[i]]]
+BasicPtr == PtrOf(Basic, "basicptr", {"r2"})
+OutKNPtr == PtrOf(OutKN, "outknptr", {"r1", "r2"})
+OutKNSingPtr == PtrOf(OutKNSing, "outknsingptr", {"r1", "r2"})
+CfgPtr == {BasicPtr, OutKNPtr, OutKNSingPtr}
+
 \* one interface alias; two interface aliases of one constructor
 Alias1 == C("alias1", <<As(R("r1", SG, 0, "a", "ctorerr", FALSE, <<>>), <<"I0">>),
                         As(R("r2", SC, 1, "a", "ctorerr", FALSE, <<>>), <<"I1">>)>>)
@@ -342,7 +350,7 @@ Iface == C("iface", <<R("r1", SC, 0, "a", "ifacerr", FALSE, <<>>),
 IfaceSing == C("ifacesing", <<R("r1", SG, 0, "a", "ifacerr", FALSE, <<>>),
                               R("r2", TR, 1, "a", "ctorerr", FALSE, <<P("I0")>>)>>)
 
-CfgMore == {Iface, IfaceSing, Embedded, AliasDeps, DupDeps, DiamondPO, DiamondPOKG, Alias2Transient, OptionalSing, GroupTransDeps, GroupMixedOK, AliasGroupAsym}
+CfgMore == CfgPtr \cup {Iface, IfaceSing, Embedded, AliasDeps, DupDeps, DiamondPO, DiamondPOKG, Alias2Transient, OptionalSing, GroupTransDeps, GroupMixedOK, AliasGroupAsym}
 
 Plain == {Basic, Chain, Keyed, Group, GroupScoped, GroupDeps, Multi, MultiTr, OutKN, OutKNSing, Alias1, Alias2,
           Alias2Scoped, Diamond2, Optional, Inits, InitSing, Builtin, InstVal, InstVals, InstValsV} \cup CfgForms \cup CfgMore \cup CfgRemoved
